@@ -277,7 +277,7 @@ def r4_rejoin_or_defunct(ctx, f, rep):
             n += 1
             ar = [c for c in p.calls() if c['res'] == 'Foca::attempt_rejoin']
             und = [c for c in p.calls() if c['res'] == 'Foca::become_undead']
-            vals = [c for c in p.conds() if c.get('dty') == 'bool' and c['expr'][0] == 'fieldv' and c['expr'][3] == 'Continue']
+            vals = [c for c in p.conds() if c.get('dty') == 'bool' and q.ok_payload_of(p, c['expr']) is not None]
             rejoined = bool(vals) and q.cond_truth(vals[-1]) is True
             rep.check(len(ar) == 1 and (rejoined != bool(und)), 'C10-R4', hb.nname,
                       'either attempt_rejoin succeeded or become_undead is called - never neither', construct='rejoin-or-defunct:%s' % sorted(arm),
@@ -308,7 +308,7 @@ def r4_rejoin_or_defunct(ctx, f, rep):
             continue
         active = None
         for c in p.conds():
-            if c.get('dty') == 'bool' and c['expr'][0] == 'fieldv' and c['expr'][3] == 'Continue' and active is None:
+            if c.get('dty') == 'bool' and q.ok_payload_of(p, c['expr']) is not None and active is None:
                 active = q.cond_truth(c)
         conn = None
         for c in p.conds():
@@ -358,9 +358,10 @@ def r4_rejoin_or_defunct(ctx, f, rep):
         calls = {c['id']: c for c in p.calls()}
         was_undead = None
         for c in p.conds():
-            es = q.eq_sides(c['expr'])
-            if es and es[1] == ('load', q.self_field('connection_state'), 0) and q.is_variant(es[2], 'ConnectionState', 'Undead'):
-                was_undead = (q.cond_truth(c) == es[0])
+            # `connection_state == Undead`, `matches!(connection_state, Undead)` or a `match` on it, read before the reset
+            vs = q.variant_test(f, c, lambda v: v == ('load', q.self_field('connection_state'), 0))
+            if vs is not None:
+                was_undead = True if vs == {'Undead'} else (False if 'Undead' not in vs else was_undead)
         aor = [c for c in p.calls() if c['res'] == 'broadcast::Broadcasts::add_or_replace']
         gos = [i for i, c in enumerate(p.events) if c['kind'] == 'call' and c['res'] == 'Foca::gossip']
         ser = [c for c in p.calls() if c['res'] == 'Foca::serialize_member']
